@@ -243,9 +243,13 @@ class NestedAsyncEvent(NestedEvent):
         ordered_states = resolve_order(state_tree)
         done = set()
         event_data.event = self
+        scope = machine.get_global_name(join=False)
+        exited = event_data.__dict__.setdefault('exited_states', set())
         for state_path in ordered_states:
             state_name = machine.state_cls.separator.join(state_path)
-            if state_name not in done and state_name in self.transitions:
+            # a state which an earlier transition of this event has exited (and maybe entered again) had its chance
+            if state_name not in done and state_name in self.transitions \
+                    and machine.state_cls.separator.join(scope + state_path) not in exited:
                 event_data.state = machine.get_state(state_name)
                 event_data.source_name = state_name
                 event_data.source_path = copy.copy(state_path)
